@@ -4,6 +4,8 @@ CONSTANTS
   Vals = {1, 2}
   MaxLevels = {1, 2}
   RichKeys <- RichAll
+  Acts <- AllActs
+  MaxParked = 1
   MaxCommits = 2
   Log <- LogAppend
   Depth = 5
